@@ -51,7 +51,21 @@ def check_instr(fname: str, cls, vals: List[Any], deser=None) -> None:
         raise Failure(f"opcode:{fname}:{cls.mnemonic}", case, f"opcode {cls.id} != published {opcode}")
     instr = g.build(cls, vals)
     ref = refenc.encode_instr(fname, cls.mnemonic, vals)
-    got = bytes(instr.serialize())
+    # the construction route the assembler and Subroutine.instantiate use: operands in declared order
+    # (immediates as plain ints, as the text parser and the Builder pass them)
+    try:
+        via_ops = cls.from_operands([o.value if type(o).__name__ == "Immediate" else o for o in instr.operands])
+        via_bytes = bytes(via_ops.serialize())
+    except Exception as e:
+        raise Failure(f"from_operands:{fname}:{cls.mnemonic}", case, f"{cls.__name__}.from_operands raised {type(e).__name__}: {e}")
+    if via_bytes != ref:
+        raise Failure(
+            f"from_operands:{fname}:{cls.mnemonic}", case, f"{cls.__name__}.from_operands({[str(o) for o in instr.operands]}) encodes to {via_bytes.hex()}, reference {ref.hex()}: operands not in declared order"
+        )
+    try:
+        got = bytes(instr.serialize())
+    except Exception as e:
+        raise Failure(f"enc-raises:{fname}:{cls.mnemonic}", case, f"encoding the in-range instruction {instr} raised {type(e).__name__}: {e}")
     if len(got) != 7:
         raise Failure(f"len:{fname}:{cls.mnemonic}", case, f"encodes to {len(got)} bytes")
     if got != ref:
@@ -73,7 +87,10 @@ def check_header(version, app_id) -> None:
 
     case = {"kind": "header", "version": list(version), "app_id": app_id}
     s = Subroutine(instructions=[], netqasm_version=tuple(version), app_id=app_id)
-    got = bytes(s)
+    try:
+        got = bytes(s)
+    except Exception as e:
+        raise Failure("header:enc-raises", case, f"encoding an in-range header raised {type(e).__name__}: {e}")
     ref = refenc.encode_header(version, app_id)
     if got != ref:
         raise Failure("header:enc", case, f"header bytes {got.hex()} != reference {ref.hex()}")
@@ -89,7 +106,10 @@ def check_subroutine(j) -> None:
     if any(m not in table for _c, m, _v in j["instrs"]):
         return
     sub = g.build_subroutine(j)
-    got = bytes(sub)
+    try:
+        got = bytes(sub)
+    except Exception as e:
+        raise Failure("sub:enc-raises", {"kind": "sub", **j}, f"encoding an in-range subroutine raised {type(e).__name__}: {e}")
     ref = refenc.encode_subroutine(fname, j["version"], j["app_id"], [(m, v) for _c, m, v in j["instrs"]])
     case = {"kind": "sub", **j}
     if got != ref:
@@ -192,10 +212,7 @@ def shard(ctx: Ctx) -> None:
                     stt.labels["unlisted:" + cls.mnemonic] += 1
                     continue
                 n_enum += 1
-                try:
-                    check_instr(fname, cls, vals, desers[fname])
-                except Failure as f:
-                    ctx.fail(f)
+                ctx.attempt({"kind": "instr", "flavour": fname, "cls": cls.__name__, "vals": vals}, check_instr, fname, cls, vals, desers[fname])
                 stt.case(
                     [fname, cls.__name__, vals],
                     True,
@@ -245,10 +262,7 @@ def shard(ctx: Ctx) -> None:
 
 
 def _try(ctx, fn, *a):
-    try:
-        fn(*a)
-    except Failure as f:
-        ctx.fail(f)
+    ctx.attempt({"kind": "header", "args": list(a)}, fn, *a)
 
 
 def replay(case):
